@@ -222,6 +222,52 @@ class Ctx:
                 raise state['last']
             raise
 
+    def fuzz(self, target, runs, max_len=256, corpus=()):
+        """Coverage-guided campaign (atheris/libFuzzer) in a subprocess; the oracle lives inside the fuzz target
+        (vlib/fuzz.py).  Skipped (recorded, never a failure) when atheris cannot be imported."""
+        import shutil
+        import subprocess
+        py = sys.executable
+        probe = subprocess.run([py, '-c', 'import sys; sys.path.append(%r); import atheris' % os.path.join(VERIF, '.deps')],
+                               capture_output=True)
+        if probe.returncode != 0:
+            self.stats.extra['atheris'] = 'unavailable'
+            return
+        work = os.path.join(VERIF, '.work', 'fuzz-%s-%d-%d' % (target, os.getpid(), self.shard))
+        shutil.rmtree(work, ignore_errors=True)
+        os.makedirs(os.path.join(work, 'corpus'))
+        try:
+            for i, c in enumerate(corpus):
+                with open(os.path.join(work, 'corpus', 'seed%03d' % i), 'wb') as fh:
+                    fh.write(c)
+            res = os.path.join(work, 'result.json')
+            seed = self.derive('fuzz', target) % (2 ** 31 - 1) + 1
+            cmd = [py, '-m', 'vlib.fuzz', target, res, '-runs=%d' % runs, '-seed=%d' % seed, '-max_len=%d' % max_len,
+                   '-print_final_stats=0', '-verbosity=0', os.path.join(work, 'corpus')]
+            env = dict(os.environ, PYTHONHASHSEED='0')
+            try:
+                subprocess.run(cmd, cwd=VERIF, env=env, stdout=subprocess.DEVNULL, stderr=subprocess.DEVNULL,
+                               timeout=3600)
+            except subprocess.TimeoutExpired:
+                self.stats.extra['atheris'] = 'timeout (inconclusive)'
+            if not os.path.exists(res):
+                raise HarnessError('atheris target %s wrote no result' % target)
+            out = json.load(open(res))
+        finally:
+            shutil.rmtree(work, ignore_errors=True)
+        self.stats.extra['atheris'] = 'used'
+        self.stats.extra['atheris_runs'] = self.stats.extra.get('atheris_runs', 0) + out['runs']
+        self.stats.extra['atheris_in_domain'] = self.stats.extra.get('atheris_in_domain', 0) + out['in_domain']
+        self.stats.evaluations += out['in_domain']
+        self.stats.count('atheris_in_domain', out['in_domain'])
+        self.stats.count('atheris_nontrivial', out['nontrivial'])
+        for smp in out.get('samples', [])[:2]:
+            if len(self.stats.samples) < 6:
+                self.stats.samples.append({'atheris_input': smp})
+        if out.get('violation'):
+            v = out['violation']
+            raise Violation('[atheris] ' + v['msg'], unjson(v['case']), v.get('clause'))
+
     def machine(self, name, machine_cls, max_examples, steps):
         import hypothesis
         from hypothesis import HealthCheck, Phase, settings
